@@ -710,6 +710,10 @@ def dense_embed(X, d, sites, where):
     return np.asarray(qu.pkron(np.asarray(X, dtype=float), [d] * n, [sites.index(w) for w in where]))
 
 
+HAM_GRID = [(cyc, dflt, form) for cyc in (False, True) for dflt in (True, False)
+            for form in ("none", "array", "dict", "dict+default")]
+
+
 def ham_stream(ctx):
     from quimb.tensor.tn1d.tebd import LocalHam1D
     from quimb.tensor.tnag.tebd import LocalHamGen
@@ -721,6 +725,10 @@ def ham_stream(ctx):
         d = 2 if rng.random() < 0.85 else 3
         D2 = d * d
         oned = rng.random() < 0.4
+        # the first cases cross every constructor option deterministically (1D: periodic x default/keyed x H1 form)
+        force = HAM_GRID[cid - 1] if cid <= len(HAM_GRID) else None
+        if force:
+            oned = True
         pool = {}
 
         def newmat(n, scale=1):
@@ -734,8 +742,12 @@ def ham_stream(ctx):
         if oned:
             L = rng.randint(2, 6)
             cyc = L >= 3 and rng.random() < 0.4
+            if force:
+                L, cyc = max(L, 3), force[0]
             H2 = {}
             dflt2 = newmat(D2) if rng.random() < 0.8 else None
+            if force:
+                dflt2 = newmat(D2) if force[1] else None
             for i in range(L - 1 + int(cyc)):
                 a, b = i, (i + 1) % L
                 if dflt2 is None or rng.random() < 0.35:
@@ -756,6 +768,8 @@ def ham_stream(ctx):
             dflt2 = None
         # one-site terms: multiples of 60 so that equal sharing among <= 6 pairs is exact
         form = rng.choice(["none", "array", "dict", "dict+default"])
+        if force:
+            form = force[2]
         h1, dflt1 = {}, None
         if form == "array":
             dflt1 = newmat(d, 60)
@@ -985,6 +999,9 @@ def build_ham(rng, L, cyclic, H2, H1):
     return LocalHam1D(L, H2=H2arg, H1=None if H1 is None else dict(H1), cyclic=cyclic)
 
 
+ORACLE_GRID = [(cyc, im, o) for cyc in (False, True) for im in (False, True) for o in ((1, 2) if cyc else (1, 2, 4))]
+
+
 def oracle_stream(ctx):
     import quimb.tensor as qtn
     from quimb.tensor.tn1d.tebd import TEBD
@@ -999,6 +1016,10 @@ def oracle_stream(ctx):
         with_h1 = rng.random() < 0.6
         imag = rng.random() < 0.4
         order = rng.choice([1, 2, 4])
+        if it < len(ORACLE_GRID):  # cross periodic x imaginary x order with non exchange-symmetric, site dependent terms
+            cyclic, imag, order = ORACLE_GRID[it]
+            L = max(L, 3) if cyclic else L
+            symmetric, with_h1 = False, True
         H2, H1 = make_case(nrng, rng, L, cyclic, symmetric, with_h1, real=imag and rng.random() < 0.5,
                            uniform_h1=cyclic and symmetric and rng.random() < 0.7)
         ham = build_ham(rng, L, cyclic, H2, H1)
@@ -1201,112 +1222,317 @@ def edge_stream(ctx):
                       "and apply_to_arrays replaces the terms without clearing them", stale)
 
 
+def nonsym_int(rng, scale=1):
+    """integer 4x4 matrix that is certainly not symmetric under exchange of its two sites"""
+    while True:
+        m = int_mat(rng, 4, scale)
+        if not np.array_equal(flip2(m), m):
+            return m
+
+
+def directed_bonds(shape, cyc):
+    """nearest neighbour bonds (site, site + 1 in each direction) of an open / periodic hypercubic lattice, as the
+    documentation describes them: the first factor of a default term acts on `site`, the second on its successor"""
+    import itertools
+
+    out = []
+    for site in itertools.product(*[range(n) for n in shape]):
+        for ax in reversed(range(len(shape))):  # (i, j+1) before (i+1, j); irrelevant for sums
+            nxt = list(site)
+            nxt[ax] += 1
+            if nxt[ax] >= shape[ax]:
+                if not cyc[ax]:
+                    continue
+                nxt[ax] %= shape[ax]
+            out.append((site, tuple(nxt)))
+    return out
+
+
 def lattice_stream(ctx):
-    """LocalHam2D / LocalHam3D / TEBDGen (arbitrary geometry): exact term sums on coordinate-labelled
-    lattices and one sweep of the arbitrary-geometry TEBD against the explicit product of gates"""
-    import quimb as qu
-    import quimb.tensor as qtn
-    import scipy.linalg as sla
+    """LocalHam2D / LocalHam3D on open AND periodic lattices: non exchange-symmetric integer default term,
+    keyed terms in both orientations, one-site terms (dict / default): exact dense sum against the reference built
+    from DIRECTED bonds, and the stored dictionary against the Coq model (localham2d / localham3d)"""
     from quimb.tensor.tn2d.tebd import LocalHam2D
     from quimb.tensor.tn3d.tebd import LocalHam3D
-    from quimb.tensor.tnag.tebd import LocalHamGen, TEBDGen
 
     rng = ctx.rng
-    nrng = np.random.default_rng(ctx.seed + 51)
-    # --- term sums (exact integers; one-site entries multiples of 12 so equal sharing is exact) ---
-    for shape in ctx.n([(2, 2), (2, 3), (2, 2, 2)], [(2, 2), (2, 3), (3, 2), (1, 4), (2, 2, 2), (1, 2, 3)]):
-        for variant in ("default", "dict"):
-            import itertools
+    # periodic directions have length 3 (length 2 would make the two directed bonds of a pair coincide)
+    configs = [((2, 2), (False, False)), ((3, 2), (True, False)), ((2, 3), (False, True)), ((3, 3), (True, True)),
+               ((1, 3), (False, True)), ((2, 2, 2), (False, False, False)), ((3, 1, 2), (True, False, False)),
+               ((1, 2, 3), (False, False, True))]
+    if not ctx.quick:
+        configs += [((3, 2), (False, False)), ((4, 2), (True, False)), ((3, 3), (True, False)), ((3, 3), (False, True)),
+                    ((3, 1, 3), (True, False, True)), ((1, 3, 3), (False, True, True))]
+    cases, info = [], {}
+    cid = 0
+    for shape, cyc in configs:
+        for variant in ("default", "default+keyed", "keyed"):
+            for h1form in ("none", "dict", "default", "dict+default"):
+                if ctx.quick and (cid % 3 == 2) and variant != "default":
+                    pass
+                bonds = directed_bonds(shape, cyc)
+                sites = sorted({c for b in bonds for c in b})
+                rav = {sname: n for n, sname in enumerate(sites)}  # lexicographic = row-major ravel
+                X0 = nonsym_int(rng)
+                H2 = {}
+                if variant != "default":
+                    for a, b in bonds:
+                        if variant == "keyed" or rng.random() < 0.4:
+                            H2[(a, b) if rng.random() < 0.5 else (b, a)] = nonsym_int(rng)
+                want = {}  # documented: keyed terms as given, default under the directed bond
+                for a, b in bonds:
+                    if (a, b) in H2:
+                        want[(a, b)] = H2[(a, b)]
+                    elif (b, a) in H2:
+                        want[(b, a)] = H2[(b, a)]
+                    elif variant != "keyed":
+                        want[(a, b)] = X0
+                covered = sorted({c for k in want for c in k})
+                h1 = {}
+                if h1form.startswith("dict"):
+                    for sname in rng.sample(covered, rng.randint(1, len(covered))):
+                        h1[sname] = int_mat(rng, 2, 60)
+                d1 = int_mat(rng, 2, 60) if h1form.endswith("default") else None
+                H2arg = dict(H2)
+                if variant != "keyed":
+                    H2arg = X0 if (variant == "default" and rng.random() < 0.5) else {**H2arg, None: X0}
+                H1arg = None if h1form == "none" else (d1 if h1form == "default" and rng.random() < 0.5 else ({**h1, None: d1} if d1 is not None else dict(h1)))
+                cyc_arg = cyc[0] if len(set(cyc)) == 1 and rng.random() < 0.5 else tuple(cyc)
+                ctx.count(("lattice", shape, cyc, variant, h1form), True)
+                ctx.bump("lattice_" + ("periodic" if any(cyc) else "open"))
+                desc = {"shape": shape, "cyclic": cyc, "variant": variant, "H1": h1form, "default_H2": X0.tolist(),
+                        "H2": {str(k): v.tolist() for k, v in H2.items()}, "H1_sites": [str(k) for k in h1]}
+                try:
+                    ham = (LocalHam2D(*shape, H2=H2arg, H1=H1arg, cyclic=cyc_arg) if len(shape) == 2
+                           else LocalHam3D(*shape, H2=H2arg, H1=H1arg, cyclic=cyc_arg))
+                except Exception as e:
+                    ctx.violation("localham:lattice:raised", f"{type(e).__name__}: {e}", desc)
+                    continue
+                impl = [(k, np.asarray(v)) for k, v in ham.terms.items()]
+                # ---- direct oracle ----
+                if len(covered) <= 9:
+                    h1full = dict(h1)
+                    if d1 is not None:
+                        for sname in covered:
+                            h1full.setdefault(sname, d1)
+                    ref = sum(dense_embed(X, 2, covered, k) for k, X in want.items())
+                    for sname, h in h1full.items():
+                        ref = ref + dense_embed(h, 2, covered, [sname])
+                    got = sum(dense_embed(X, 2, covered, k) for k, X in impl)
+                    if not np.array_equal(got, ref) or any(a >= b for (a, b), _ in impl):
+                        ctx.violation("localham:term_sum:lattice" + (":periodic" if any(cyc) else ":open") + (":default_H2" if variant != "keyed" else ""),
+                                      "LocalHam2D/3D pair terms do not sum to sum over DIRECTED bonds of H2 + sum(H1)", desc)
+                # ---- correspondence with the model ----
+                ent = [(k, zl(v)) for k, v in impl]
+                if any(e is None for _, e in ent):
+                    ctx.violation("localham:non_integer_entry", "integer inputs with exact sharing produced a non-integer entry", desc)
+                    continue
+                dl = lambda dct: "[" + "; ".join(f"(({zlit(rav[a])}, {zlit(rav[b])}), mk 4%nat {zl(v)})" for (a, b), v in dct.items()) + "]"
+                h1lit = "[" + "; ".join(f"({zlit(rav[k])}, mk 2%nat {zl(v)})" for k, v in h1.items()) + "]"
+                d1lit = "None" if d1 is None else f"(Some (mk 2%nat {zl(d1)}))"
+                d2lit = "None" if variant == "keyed" else f"(Some (mk 4%nat {zl(X0)}))"
+                implit = "(Some [" + "; ".join(f"(({zlit(rav[a])}, {zlit(rav[b])}), {e})" for (a, b), e in ent) + "])"
+                dims = " ".join(zlit(n) for n in shape) + " " + " ".join(blit(c) for c in cyc)
+                model = f"localham{len(shape)}d 2%nat {dims} {dl(H2)} {d2lit} {h1lit} {d1lit}"
+                cid += 1
+                info[cid] = desc
+                cases.append((cid, f"odict_eqb 4%nat ({model}) {implit}"))
 
-            sites = list(itertools.product(*[range(n) for n in shape]))
-            nn = [(a, b) for a in sites for b in sites if a < b and sum(abs(x - y) for x, y in zip(a, b)) == 1]
-            X0 = int_mat(rng, 4)
-            H2 = {}
-            for a, b in nn:
-                if variant == "dict" or rng.random() < 0.3:
-                    H2[(a, b) if rng.random() < 0.5 else (b, a)] = int_mat(rng, 4)
-            want = {}
-            for a, b in nn:
-                if (a, b) in H2:
-                    want[(a, b)] = H2[(a, b)]
-                elif (b, a) in H2:
-                    want[(b, a)] = H2[(b, a)]
-                elif variant == "default":
-                    want[(a, b)] = X0
-            h1 = {sname: int_mat(rng, 2, 12) for sname in rng.sample(sites, rng.randint(1, len(sites)))}
-            d1 = int_mat(rng, 2, 12) if rng.random() < 0.5 else None
-            covered = {c for k in want for c in k}
-            if not set(h1) <= covered:
-                h1 = {k: v for k, v in h1.items() if k in covered}
-            H2arg = dict(H2)
-            if variant == "default":
-                H2arg[None] = X0
-            H1arg = dict(h1)
-            if d1 is not None:
-                H1arg[None] = d1
-            ctx.count(("lattice", shape, variant, d1 is not None), True)
-            ctx.bump("lattice_term_sum")
-            desc = {"shape": shape, "variant": variant, "H2_keys": [str(k) for k in H2], "H1_sites": [str(k) for k in h1],
-                    "default_H1": d1 is not None}
-            try:
-                ham = (LocalHam2D(*shape, H2=H2arg, H1=H1arg or None) if len(shape) == 2
-                       else LocalHam3D(*shape, H2=H2arg, H1=H1arg or None))
-            except Exception as e:
-                ctx.violation("localham:lattice:raised", f"{type(e).__name__}: {e}", desc)
-                continue
-            allsites = sorted(covered)
-            h1full = dict(h1)
-            if d1 is not None:
-                for sname in allsites:
-                    h1full.setdefault(sname, d1)
-            ref = sum(dense_embed(X, 2, allsites, k) for k, X in want.items())
-            for sname, h in h1full.items():
-                ref = ref + dense_embed(h, 2, allsites, [sname])
-            got = sum(dense_embed(np.asarray(X), 2, allsites, k) for k, X in ham.terms.items())
-            if not np.array_equal(got, ref) or any(a >= b for a, b in ham.terms):
-                ctx.violation("localham:term_sum:lattice", "LocalHam2D/3D pair terms do not sum to sum(H2) + sum(H1)", desc)
-    # --- arbitrary geometry TEBD: one sweep = the product of the local exponentials in `ordering` order ---
-    for it in range(ctx.n(4, 30)):
-        n = rng.randint(3, 5)
-        edges = [(i, i + 1) for i in range(n - 1)] + ([(0, n - 1)] if n > 2 and rng.random() < 0.7 else [])
-        if n >= 4 and rng.random() < 0.5:
-            edges.append((0, 2))
-        H2 = {((a, b) if rng.random() < 0.5 else (b, a)): rand_herm(nrng, 4, real=True) for a, b in edges}
-        H1 = {sname: rand_herm(nrng, 2, real=True) for sname in rng.sample(range(n), rng.randint(0, n))}
-        ham = LocalHamGen(H2, H1 or None)
-        psi = qtn.TN_from_edges_rand(edges, D=2, phys_dim=2, seed=rng.randint(0, 10**6))
-        sites = list(range(n))
-        inds = [psi.site_ind(i) for i in sites]
-        v0 = np.asarray(psi.to_dense(inds)).ravel()
-        full = {}
-        for k, X in H2.items():
-            full[tuple(sorted(k))] = full.get(tuple(sorted(k)), 0) + dense_embed(X, 2, sites, k)
-        for sname, h in H1.items():
-            ks = [k for k in full if sname in k]
-            for k in ks:
-                full[k] = full[k] + dense_embed(h, 2, sites, [sname]) / len(ks)
-        ordering = sorted(full)
-        rng.shuffle(ordering)
-        reflect = rng.random() < 0.5
-        tau = rng.choice([0.05, 0.1, 0.2])
-        ctx.count(("tebdgen", n, len(edges), reflect, tau, it), True)
-        ctx.bump("tebdgen_sweep")
-        desc = {"edges": edges, "H2_keys": [str(k) for k in H2], "H1_sites": sorted(H1), "ordering": ordering,
-                "second_order_reflect": reflect, "tau": tau}
+    def finish():
+        failed, errors = ctx.coq_cases("lattice", HAM_HEADER, cases, shard=ctx.n(50, 100))
+        for path, err in errors:
+            ctx.broken_obligation("correspondence:lattice:" + path.split("/")[-1], err)
+        for c in failed[:4]:
+            ctx.broken_obligation("correspondence:localham2d3d_model_vs_impl", info[c])
+
+    return finish
+
+
+GS_HEADER = (
+    "From Coq Require Import ZArith QArith Qcanon List Bool.\n"
+    "From QV Require Import C11.Model C11.HamModel.\nImport ListNotations.\nOpen Scope Z_scope.\n"
+    "Definition qc (n : Z) (d : positive) : Qc := Q2Qc (n # d).\n"
+    "Fixpoint gl_eqb (a b : list (key * Qc)) : bool := match a, b with [], [] => true\n"
+    "  | (k, x) :: a', (l, y) :: b' => key_eqb k l && Qc_eq_bool x y && gl_eqb a' b' | _, _ => false end.\n"
+)
+
+
+def gensweep_stream(ctx):
+    """TEBDSweepMixin.sweep / evolve for every class that uses it (TEBDGen, SimpleUpdateGen, TEBD2D, SimpleUpdate),
+    every kind of ordering (explicit, 'sort', None = dynamic random, 'random', a colouring strategy, callable) and
+    second_order_reflect in {False, True}, non exchange-symmetric terms: the gate log (which term, which exponent)
+    against the Coq model, exactly; and the resulting state against the explicit dense product"""
+    import scipy.linalg as sla
+    import quimb.tensor as qtn
+    from quimb.tensor.tn2d.tebd import TEBD2D, LocalHam2D, SimpleUpdate
+    from quimb.tensor.tnag.tebd import LocalHamGen, SimpleUpdateGen, TEBDGen
+
+    rng = ctx.rng
+    nrng = np.random.default_rng(ctx.seed + 61)
+    cases, info = [], {}
+    cid = 0
+    kinds = ["explicit", "sort", "none", "random", "smallest_last", "callable"]
+    for cls in (TEBDGen, SimpleUpdateGen, TEBD2D, SimpleUpdate):
+        for kind in kinds:
+            for reflect in (False, True):
+                for rep in range(ctx.n(1, 3)):
+                    two_d = cls in (TEBD2D, SimpleUpdate)
+                    if two_d:
+                        shape = rng.choice([(2, 2), (2, 3)] if ctx.quick else [(2, 2), (2, 3), (3, 2)])
+                        bonds = directed_bonds(shape, (False, False))
+                        X0 = rand_herm(nrng, 4, real=True)
+                        H2 = {(a, b) if rng.random() < 0.5 else (b, a): rand_herm(nrng, 4, real=True)
+                              for a, b in bonds if rng.random() < 0.4}
+                        sites = sorted({c for b in bonds for c in b})
+                        H1 = {sname: rand_herm(nrng, 2, real=True) for sname in rng.sample(sites, rng.randint(0, len(sites)))}
+                        ham = LocalHam2D(*shape, H2={**H2, None: X0}, H1=H1 or None)
+                        want = {}
+                        for a, b in bonds:
+                            want[(a, b) if (b, a) not in H2 else (b, a)] = H2.get((a, b), H2.get((b, a), X0))
+                        psi = qtn.PEPS.rand(*shape, bond_dim=2, seed=rng.randint(0, 10**6))
+                    else:
+                        n = rng.randint(3, 5)
+                        edges = [(i, i + 1) for i in range(n - 1)] + ([(0, n - 1)] if rng.random() < 0.7 else [])
+                        if n >= 4 and rng.random() < 0.5:
+                            edges.append((0, 2))
+                        want = {((a, b) if rng.random() < 0.5 else (b, a)): rand_herm(nrng, 4, real=True) for a, b in edges}
+                        sites = list(range(n))
+                        H1 = {sname: rand_herm(nrng, 2, real=True) for sname in rng.sample(sites, rng.randint(0, n))}
+                        ham = LocalHamGen(dict(want), H1 or None)
+                        psi = qtn.TN_from_edges_rand(edges, D=2, phys_dim=2, seed=rng.randint(0, 10**6))
+                    rav = {sname: k for k, sname in enumerate(sites)}
+                    # documented pair terms, independent of the implementation's dictionaries
+                    full = {}
+                    for k, X in want.items():
+                        key = tuple(sorted(k))
+                        full[key] = full.get(key, 0) + dense_embed(X, 2, sites, k)
+                    for sname, h in H1.items():
+                        ks = [k for k in full if sname in k]
+                        for k in ks:
+                            full[k] = full[k] + dense_embed(h, 2, sites, [sname]) / len(ks)
+                    pairs = sorted(full)
+                    used = []  # the ordering every sweep consulted
+                    if kind == "explicit":
+                        o = list(pairs)
+                        rng.shuffle(o)
+                        ordering = o
+                    elif kind == "callable":
+                        def ordering(_p=pairs):
+                            o = list(_p)
+                            rng.shuffle(o)
+                            used.append(o)
+                            return o
+                    else:
+                        ordering = {"sort": "sort", "none": None, "random": "random", "smallest_last": "smallest_last"}[kind]
+                    mode = rng.choice(["sweep", "evolve_scalar", "evolve_list", "sweep_tau_fn"])
+                    tau0 = rng.choice([0.125, 0.0625, 0.25])
+                    steps = 1 if mode.startswith("sweep") else rng.choice([1, 2])
+                    tau_fn = lambda where: tau0 if (rav[where[0]] + rav[where[1]]) % 2 else tau0 / 2
+                    taus_arg = [tau0, tau0 / 2] if mode == "evolve_list" else tau0
+                    desc = {"class": cls.__name__, "ordering": kind, "second_order_reflect": reflect, "mode": mode, "tau": taus_arg,
+                            "steps": steps, "sites": [str(x) for x in sites], "pairs": [str(p) for p in want], "H1_sites": [str(x) for x in H1]}
+                    ctx.count(("gensweep", cls.__name__, kind, reflect, mode, rep), True)
+                    ctx.bump("gensweep_" + cls.__name__)
+                    kw = {"gauge_smudge": 0.0} if cls is SimpleUpdate else {}
+                    try:
+                        tb = cls(psi, ham, tau=tau0, D=64, cutoff=0.0, ordering=ordering, second_order_reflect=reflect,
+                                 compute_energy_final=False, progbar=False, **kw)
+                    except Exception as e:
+                        ctx.violation("tebdgen:constructor_raised", f"{type(e).__name__}: {e}", desc)
+                        continue
+                    if kind == "none":  # dynamic random ordering: observe what each sweep gets
+                        orig = tb._ordering
+                        tb._ordering = lambda _o=orig: (used.append(list(_o())), used[-1])[1]
+                    fetched, applied = [], []
+                    real_expm, real_gate = tb.ham.get_gate_expm, tb.gate
+                    tb.ham.get_gate_expm = lambda where, x: (fetched.append((tuple(where), x, real_expm(where, x))), fetched[-1][2])[1]
+                    tb.gate = lambda G, where: (applied.append((tuple(where), G)), real_gate(G, where))[1]
+                    try:
+                        if mode == "sweep":
+                            tb.sweep(tau0)
+                        elif mode == "sweep_tau_fn":
+                            tb.sweep(tau_fn)
+                        else:
+                            tb.evolve(steps, tau=taus_arg, progbar=False)
+                    except Exception as e:
+                        ctx.violation("tebdgen:raised", f"{type(e).__name__}: {e}", desc)
+                        continue
+                    finally:
+                        tb.ham.get_gate_expm = real_expm
+                    if kind not in ("callable", "none"):
+                        used = [list(tb.ordering)] * steps
+                    taus = ([tau0, tau0 / 2] + [tau0 / 2] * steps)[:steps] if mode == "evolve_list" else [tau0] * steps
+                    desc["orderings"] = [[str(w) for w in o] for o in used]
+                    # every ordering must name every term exactly once
+                    if len(used) != steps or any(sorted(tuple(sorted(w)) for w in o) != pairs for o in used):
+                        ctx.violation("tebdgen:ordering_not_a_permutation_of_terms", "an ordering does not name every pair exactly once", desc)
+                        continue
+                    if len(fetched) != len(applied) or any(f[0] != a[0] or f[2] is not a[1] for f, a in zip(fetched, applied)):
+                        ctx.violation("tebdgen:gate_fetched_for_other_pair", "the gate applied at a pair is not the one fetched for it", desc)
+                        continue
+                    # ---- direct oracle on the gate log: total exponent of every term per sweep is tau ----
+                    tot = {}
+                    for where, x, _ in fetched:
+                        tot[tuple(sorted(where))] = tot.get(tuple(sorted(where)), 0.0) - float(x)
+                    tau_of = (lambda p: tau_fn(p)) if mode == "sweep_tau_fn" else (lambda p: sum(taus))
+                    if any(abs(tot.get(p, 0.0) - tau_of(p)) > 1e-12 for p in pairs):
+                        ctx.violation("tebdgen.sweep:term_exponent" + (":second_order_reflect" if reflect else ""),
+                                      "a term is not exponentiated for tau per sweep in total",
+                                      {**desc, "totals": {str(k): v for k, v in tot.items()}, "want": sum(taus)})
+                    # ---- dense oracle ----
+                    inds = [psi.site_ind(sname) for sname in sites]
+                    v = np.asarray(psi.to_dense(inds)).ravel()
+                    for o, tau in zip(used, taus):
+                        for w in list(o) + (list(reversed(o)) if reflect else []):
+                            tw = tau_fn(tuple(sorted(w))) if mode == "sweep_tau_fn" else tau
+                            v = sla.expm(-tw / (2 if reflect else 1) * full[tuple(sorted(w))]) @ v
+                    st = tb.state
+                    if st.max_bond() < 64:
+                        g = np.asarray(st.to_dense(inds)).ravel()
+                        exact_norm = cls in (TEBDGen, TEBD2D)
+                        dist = np.linalg.norm(g - v) / max(1.0, np.linalg.norm(v)) if exact_norm else np.linalg.norm(unit(g) - unit(v))
+                        # simple update re-gauges / equilibrates with regularised inverses: its state is only compared
+                        # loosely (its gate log is still compared exactly, above and in Coq)
+                        if dist > (1e-8 if exact_norm else 1e-3):
+                            ctx.violation("tebdgen.sweep:product_of_gates" + (":second_order_reflect" if reflect else ""),
+                                          f"{cls.__name__}: the state after {mode} is not the ordered product of exp(-tau h) (distance {dist:.2e})",
+                                          {**desc, "distance": float(dist)})
+                    else:
+                        ctx.bump("gensweep_dense_inconclusive_bond_cap")
+                    # ---- correspondence with the model ----
+                    kl = lambda w: f"({zlit(rav[w[0]])}, {zlit(rav[w[1]])})"
+                    olit = "[" + "; ".join("[" + "; ".join(kl(w) for w in o) + "]" for o in used) + "]"
+                    tlit = "[" + "; ".join(qcl(Fraction(t)) for t in taus) + "]"
+                    glit = "[" + "; ".join(f"({kl(w)}, {qcl(Fraction(-float(x)))})" for w, x, _ in fetched) + "]"
+                    if mode == "sweep_tau_fn":
+                        continue  # per-pair tau: decided by the two oracles above, the model takes one tau per sweep
+                    cid += 1
+                    info[cid] = desc
+                    cases.append((cid, f"gl_eqb (evolve_gates {olit} {blit(reflect)} {tlit}) {glit}"))
+                    if cid <= 1:
+                        ctx.sample({"gensweep": desc})
+
+    # real time is documented as not supported by these classes: it must be refused, not silently run as imaginary time
+    ham_rt = LocalHamGen({(0, 1): rand_herm(nrng, 4, real=True), (2, 1): rand_herm(nrng, 4, real=True)})
+    psi_rt = qtn.TN_from_edges_rand([(0, 1), (1, 2)], D=2, phys_dim=2, seed=1)
+    for cls in (TEBDGen, SimpleUpdateGen):
+        ctx.count(("real_time_refused", cls.__name__), True)
         try:
-            tb = TEBDGen(psi, ham, tau=tau, D=64, cutoff=0.0, ordering=ordering, second_order_reflect=reflect,
-                         compute_energy_final=False, progbar=False)
-            tb.sweep(tau)
-            g = np.asarray(tb.state.to_dense(inds)).ravel()
+            cls(psi_rt, ham_rt, imag=False, progbar=False)
+            ctx.violation("tebdgen:real_time_accepted", f"{cls.__name__}(imag=False) did not raise NotImplementedError", {"class": cls.__name__})
+        except NotImplementedError:
+            pass
         except Exception as e:
-            ctx.violation("tebdgen:raised", f"{type(e).__name__}: {e}", desc)
-            continue
-        v = v0
-        for w in ordering + (ordering[::-1] if reflect else []):
-            v = sla.expm(-tau / (2 if reflect else 1) * full[w]) @ v
-        if np.linalg.norm(g - v) > 1e-9 * max(1.0, np.linalg.norm(v)):
-            ctx.violation("tebdgen.sweep:product_of_gates", "TEBDGen.sweep(tau) is not the ordered product of exp(-tau h)",
-                          {**desc, "distance": float(np.linalg.norm(g - v))})
+            ctx.violation("tebdgen:real_time_other_error", f"{type(e).__name__}: {e}", {"class": cls.__name__})
+
+    def finish():
+        failed, errors = ctx.coq_cases("gensweep", GS_HEADER, cases, shard=400)
+        for path, err in errors:
+            ctx.broken_obligation("correspondence:gensweep:" + path.split("/")[-1], err)
+        for c in failed[:4]:
+            ctx.broken_obligation("correspondence:generic_sweep_model_vs_impl", info[c])
+
+    return finish
 
 
 def normsite_stream(ctx):
@@ -1436,7 +1662,7 @@ def run(ctx):
         ctx.trusted_base.append("DEVELOPMENT RUN: theorems not re-checked")
     else:
       ctx.check_props(["C11/Model.vo", "C11/Proofs.vo", "C11/Sched.vo", "C11/Suzuki.vo", "C11/Bonds.vo", "C11/HamModel.vo",
-                       "C11/HamProofs.vo", "C11/Props.v"])
+                       "C11/HamProofs.vo", "C11/GenProofs.vo", "C11/Props.v"])
     import threading
     import time
 
@@ -1467,6 +1693,7 @@ def run(ctx):
     timed("oracle", oracle_stream)
     timed("edge", edge_stream)
     timed("lattice", lattice_stream)
+    timed("gensweep", gensweep_stream)
     timed("convergence", convergence_stream, always=not ctx.quick)
     for th in threads:
         th.join()
